@@ -430,6 +430,43 @@ func checkDeliverLoop(c *Ctx, r *Rep, rule string, caller, del *ssa.Function) {
 	_ = anchor
 	calls := callsIn(caller, false, func(cal *ssa.Function, _ ssa.CallInstruction) bool { return cal == del })
 	key := rule + ":loop@" + c.Key(anchor)
+	if len(calls) == 0 {
+		// higher-order form: `collect(dst, subs, func(s) (*X, error) { return deliverToSubscription(…, s, …) })` — the
+		// loop lives in a private (generic) helper that calls the function value it is handed once per element
+		for _, cl := range caller.AnonFuncs {
+			inner := callsIn(cl, false, func(cal *ssa.Function, _ ssa.CallInstruction) bool { return cal == del })
+			if len(inner) != 1 {
+				continue
+			}
+			mc := makeClosureOf(cl)
+			if mc == nil || mc.Referrers() == nil {
+				continue
+			}
+			for _, u := range *mc.Referrers() {
+				hc, isCall := u.(*ssa.Call)
+				if !isCall {
+					continue
+				}
+				h := hc.Call.StaticCallee()
+				if h == nil || !c.inModule(h) || len(h.Blocks) == 0 || h.Object() == nil || h.Object().Exported() {
+					continue
+				}
+				for ai, a := range hc.Call.Args {
+					if a != ssa.Value(mc) || ai >= len(h.Params) {
+						continue
+					}
+					for _, b := range h.Blocks {
+						for _, in := range b.Instrs {
+							if dc, isDC := in.(*ssa.Call); isDC && dc.Call.StaticCallee() == nil && !dc.Call.IsInvoke() && resolve(dc.Call.Value) == ssa.Value(h.Params[ai]) {
+								caller = h
+								calls = []ssa.CallInstruction{dc}
+							}
+						}
+					}
+				}
+			}
+		}
+	}
 	if len(calls) != 1 {
 		r.Fail(rule, key, caller.Pos(), fmt.Sprintf("expected one call of deliverToSubscription, found %d", len(calls)))
 		return
